@@ -143,26 +143,26 @@ theorem lower_notDigit (c : Char) (h : isAsciiLower c = true) : isAsciiDigit c =
   unfold isAsciiLower at h; split at h <;> first | decide | simp at h
 
 /-- the camel-cased name of an UpperCamelCase variant: starts with a lower-case letter -/
-theorem toCamel_head (s : Str) (h : C16.UpperCamel s) :
-    ∃ c rest, Rename.toCamel s = c :: rest ∧ isAsciiLower c = true := by
+theorem toCamel_head (U : UnicodeOps) (hU : U.AsciiCorrect) (s : Str) (h : C16.UpperCamel s) :
+    ∃ c rest, Rename.toCamel U s = c :: rest ∧ isAsciiLower c = true := by
   obtain ⟨c, rest, rfl, hc⟩ := upperCamel_head s h
-  exact ⟨asciiLower c, rest, toCamel_upperCamel c rest h, upper_lower_isLower c hc⟩
+  exact ⟨asciiLower c, rest, toCamel_upperCamel U hU c rest h, upper_lower_isLower c hc⟩
 
-theorem toCamel_noTick (s : Str) (h : C16.UpperCamel s) : ∀ r, Rename.toCamel s ≠ '`' :: r := by
-  obtain ⟨c, rest, hcr, hc⟩ := toCamel_head s h
+theorem toCamel_noTick (U : UnicodeOps) (hU : U.AsciiCorrect) (s : Str) (h : C16.UpperCamel s) : ∀ r, Rename.toCamel U s ≠ '`' :: r := by
+  obtain ⟨c, rest, hcr, hc⟩ := toCamel_head U hU s h
   intro r hr
   rw [hcr] at hr
   simp only [List.cons.injEq] at hr
   exact lower_ne_tick c hc hr.1
 
-theorem algebraicCaseName_upperCamel (v : RustEnumVariant) (h : C16.UpperCamel v.id.original) :
-    algebraicCaseName v = Rename.toCamel v.id.original := by
-  obtain ⟨c, rest, hcr, hc⟩ := toCamel_head _ h
+theorem algebraicCaseName_upperCamel (U : UnicodeOps) (hU : U.AsciiCorrect) (v : RustEnumVariant) (h : C16.UpperCamel v.id.original) :
+    algebraicCaseName U v = Rename.toCamel U v.id.original := by
+  obtain ⟨c, rest, hcr, hc⟩ := toCamel_head U hU _ h
   simp [algebraicCaseName, hcr, lower_notDigit c hc]
 
-theorem algebraicCase_facts (cfg : Cfg) (e : RustEnum) (v : RustEnumVariant) (st st' : St) (c : EnumCase)
-    (h : algebraicCase cfg e v st = .ok (c, st')) :
-    c.caseName = algebraicCaseName v ∧ c.printedName = kw (algebraicCaseName v) ∧ c.wireName = v.id.renamed := by
+theorem algebraicCase_facts (U : UnicodeOps) (cfg : Cfg) (e : RustEnum) (v : RustEnumVariant) (st st' : St) (c : EnumCase)
+    (h : algebraicCase U cfg e v st = .ok (c, st')) :
+    c.caseName = algebraicCaseName U v ∧ c.printedName = kw (algebraicCaseName U v) ∧ c.wireName = v.id.renamed := by
   cases v with
   | unit id cs => simp [algebraicCase] at h; obtain ⟨rfl, _⟩ := h; exact ⟨rfl, rfl, rfl⟩
   | tuple id cs ty =>
@@ -171,18 +171,18 @@ theorem algebraicCase_facts (cfg : Cfg) (e : RustEnum) (v : RustEnumVariant) (st
     simp at h; obtain ⟨rfl, _⟩ := h; exact ⟨rfl, rfl, rfl⟩
   | anonymousStruct id cs fs => simp [algebraicCase] at h; obtain ⟨rfl, _⟩ := h; exact ⟨rfl, rfl, rfl⟩
 
-theorem algebraicCases_facts (cfg : Cfg) (e : RustEnum) : ∀ (vs : List RustEnumVariant) (st st' : St) (cs : List EnumCase),
-    algebraicCases cfg e vs st = .ok (cs, st') →
+theorem algebraicCases_facts (U : UnicodeOps) (cfg : Cfg) (e : RustEnum) : ∀ (vs : List RustEnumVariant) (st st' : St) (cs : List EnumCase),
+    algebraicCases U cfg e vs st = .ok (cs, st') →
       cs.map (fun c => (c.caseName, c.printedName, c.wireName)) =
-        vs.map fun v => (algebraicCaseName v, kw (algebraicCaseName v), v.id.renamed)
+        vs.map fun v => (algebraicCaseName U v, kw (algebraicCaseName U v), v.id.renamed)
   | [], st, st', cs, h => by simp [algebraicCases] at h; obtain ⟨rfl, _⟩ := h; rfl
   | v :: vs, st, st', cs, h => by
     simp only [algebraicCases] at h
     obtain ⟨⟨c, st1⟩, hc, h⟩ := (Outcome.bind_eq_ok _ _ _).1 h
     obtain ⟨⟨cs', st2⟩, hr, h⟩ := (Outcome.bind_eq_ok _ _ _).1 h
     simp at h; obtain ⟨rfl, _⟩ := h
-    obtain ⟨h1, h2, h3⟩ := algebraicCase_facts cfg e v st st1 c hc
-    simp [h1, h2, h3, algebraicCases_facts cfg e vs st1 st2 cs' hr]
+    obtain ⟨h1, h2, h3⟩ := algebraicCase_facts U cfg e v st st1 c hc
+    simp [h1, h2, h3, algebraicCases_facts U cfg e vs st1 st2 cs' hr]
 
 /-- the `CodingKeys` case of a variant binds the variant's wire name -/
 theorem keyBound_case (c : EnumCase) (hp : c.printedName = kw c.caseName) (hn : ∀ r, c.caseName ≠ '`' :: r) :
@@ -194,30 +194,30 @@ theorem keyBound_case (c : EnumCase) (hp : c.printedName = kw c.caseName) (hn : 
     exact eq_of_beq heq
   · rfl
 
-theorem unitBound_unitCase (v : RustEnumVariant) (hn : ∀ r, Rename.toCamel v.id.original ≠ '`' :: r) :
-    unitBound (unitCase v) = v.id.renamed := by
+theorem unitBound_unitCase (U : UnicodeOps) (v : RustEnumVariant) (hn : ∀ r, Rename.toCamel U v.id.original ≠ '`' :: r) :
+    unitBound (unitCase U v) = v.id.renamed := by
   unfold unitBound
   split
   · rename_i heq
-    have : (unitCase v).printedName = kw (unitCase v).caseName := rfl
-    rw [this, stripTicks_kw (unitCase v).caseName hn]
+    have : (unitCase U v).printedName = kw (unitCase U v).caseName := rfl
+    rw [this, stripTicks_kw (unitCase U v).caseName hn]
     exact (eq_of_beq heq).symm
   · rfl
 
 /-- **Swift**: whatever `write_enum` emits for an in-scope enum is correct on the wire -/
-theorem correct (U : UnicodeOps) (cfg : Cfg) (e : RustEnum) (hs : InScopeEnum e) (st st' : St)
+theorem correct (U : UnicodeOps) (hU : U.AsciiCorrect) (cfg : Cfg) (e : RustEnum) (hs : InScopeEnum e) (st st' : St)
     (structs : List SwiftStruct) (se : SwiftEnum)
     (h : enumFacts U cfg e st = .ok (structs, se, st')) : (wire se).Correct e := by
   unfold enumFacts at h
   obtain ⟨⟨structs', st1⟩, _, h⟩ := (Outcome.bind_eq_ok _ _ _).1 h
   obtain ⟨⟨cases, st2⟩, hc, h⟩ := (Outcome.bind_eq_ok _ _ _).1 h
   have hinj : ∀ a ∈ e.variants, ∀ b ∈ e.variants,
-      kw (Rename.toCamel a.id.original) = kw (Rename.toCamel b.id.original) → a.id.original = b.id.original := by
+      kw (Rename.toCamel U a.id.original) = kw (Rename.toCamel U b.id.original) → a.id.original = b.id.original := by
     intro a ha b hb hab
-    exact toCamel_inj _ _ (hs.camel a ha) (hs.camel b hb)
-      (kw_inj _ _ (toCamel_noTick _ (hs.camel a ha)) (toCamel_noTick _ (hs.camel b hb)) hab)
-  have hnodup : (e.variants.map fun v => kw (Rename.toCamel v.id.original)).Nodup := by
-    have := nodup_map_on (fun s => kw (Rename.toCamel s)) (e.variants.map (·.id.original)) hs.distinct (by
+    exact toCamel_inj U hU _ _ (hs.camel a ha) (hs.camel b hb)
+      (kw_inj _ _ (toCamel_noTick U hU _ (hs.camel a ha)) (toCamel_noTick U hU _ (hs.camel b hb)) hab)
+  have hnodup : (e.variants.map fun v => kw (Rename.toCamel U v.id.original)).Nodup := by
+    have := nodup_map_on (fun s => kw (Rename.toCamel U s)) (e.variants.map (·.id.original)) hs.distinct (by
       intro a ha b hb hab
       obtain ⟨va, hva, rfl⟩ := List.mem_map.1 ha
       obtain ⟨vb, hvb, rfl⟩ := List.mem_map.1 hb
@@ -233,16 +233,16 @@ theorem correct (U : UnicodeOps) (cfg : Cfg) (e : RustEnum) (hs : InScopeEnum e)
       apply List.map_congr_left
       intro v hv
       simp only [Function.comp_def, Option.some.injEq]
-      exact unitBound_unitCase v (toCamel_noTick _ (hs.camel v hv))
+      exact unitBound_unitCase U v (toCamel_noTick U hU _ (hs.camel v hv))
     · simpa [EnumWire.Distinct, wire, unitCase, List.filterMap_map, Function.comp_def] using hnodup
     · simp [EnumWire.Keys, hk, wire]
   | some p =>
     obtain ⟨tag, content⟩ := p
     simp only [hk] at hc h
     simp at h; obtain ⟨_, rfl, _⟩ := h
-    have hf := algebraicCases_facts cfg e e.variants st1 st2 cases hc
-    have hmem : ∀ c ∈ cases, ∃ v ∈ e.variants, c.caseName = algebraicCaseName v ∧
-        c.printedName = kw (algebraicCaseName v) ∧ c.wireName = v.id.renamed := by
+    have hf := algebraicCases_facts U cfg e e.variants st1 st2 cases hc
+    have hmem : ∀ c ∈ cases, ∃ v ∈ e.variants, c.caseName = algebraicCaseName U v ∧
+        c.printedName = kw (algebraicCaseName U v) ∧ c.wireName = v.id.renamed := by
       intro c hcm
       have : (c.caseName, c.printedName, c.wireName) ∈ cases.map (fun c => (c.caseName, c.printedName, c.wireName)) :=
         List.mem_map.2 ⟨c, hcm, rfl⟩
@@ -260,17 +260,17 @@ theorem correct (U : UnicodeOps) (cfg : Cfg) (e : RustEnum) (hs : InScopeEnum e)
         intro c hcm
         obtain ⟨v, hv, h1, h2, _⟩ := hmem c hcm
         apply keyBound_case c (by rw [h2, h1])
-        rw [h1, algebraicCaseName_upperCamel v (hs.camel v hv)]
-        exact toCamel_noTick _ (hs.camel v hv)
+        rw [h1, algebraicCaseName_upperCamel U hU v (hs.camel v hv)]
+        exact toCamel_noTick U hU _ (hs.camel v hv)
       have := congrArg (List.map some) (hb.trans hw)
       simpa [List.map_map, Function.comp_def] using this
-    · have hp : cases.map (·.printedName) = e.variants.map fun v => kw (Rename.toCamel v.id.original) := by
+    · have hp : cases.map (·.printedName) = e.variants.map fun v => kw (Rename.toCamel U v.id.original) := by
         have := congrArg (List.map fun t : Str × Str × Str => t.2.1) hf
         simp only [List.map_map, Function.comp_def] at this
         rw [this]
         apply List.map_congr_left
         intro v hv
-        rw [algebraicCaseName_upperCamel v (hs.camel v hv)]
+        rw [algebraicCaseName_upperCamel U hU v (hs.camel v hv)]
       have hck : (cases.map caseCodingKey).map (·.caseName) = cases.map (·.printedName) := by
         rw [List.map_map]
         apply List.map_congr_left
